@@ -353,7 +353,10 @@ func basepointTables(c *mc.Ctx) *space {
 		live, ok := curve.VerifC20BasepointTableGeneric(t.tbl)
 		if !ok {
 			if _, vok := curve.VerifC20VecBasepointTable(t.tbl); !vok {
-				c.Broken(t.name + " holds neither an affine nor a vector table")
+				// a table that is simply missing is a violation of the property (entry (i, j) is not [(j+1)*256^i]B), not a harness error
+				c.Seq("basepoint-table-present/"+t.name, 1, func(w *mc.W, _ int) {
+					w.Fail("basepoint-table/missing", t.name+" holds neither an affine nor a vector table in this configuration: all 256 entries are missing", nil)
+				})
 			}
 			continue // vector form: see vectorTables
 		}
